@@ -40,7 +40,7 @@ REGISTRY = {
                              'all other detectors (Louvain family, signed variants, probtune, spectral modularity_und/_dir, community_louvain) are covered by the bounded stand-in only'],
                 technique='deductive (pyvc+z3+lemmas) for modularity_finetune_und/_dir: labels exactly 1..k and returned q = modularity of the returned labels; bounded stand-in for the other detectors'),
     'C07': dict(extra_proved=['checks.lean_check.lean'], level='proof', bounded='checks.bounded.C07', pyvc=[('contracts.modularity', k, None, r'C02-') for k in ['modularity_finetune_und', 'modularity_finetune_dir']] +
-                     [('contracts.modularity', k, None, None) for k in ['modularity_louvain_und#level', 'community_louvain#level', 'modularity_louvain_dir#level', 'modularity_finetune_und_sign']],
+                     [('contracts.modularity', k, None, None) for k in ['modularity_louvain_und#level', 'community_louvain#level', 'modularity_louvain_dir#level', 'modularity_finetune_und_sign', 'modularity_louvain_und_sign#level']],
                 trusted=PYVC_TRUSTED + ['modularity lemmas of engine/pyvc/core.py (gain lemma, relabelling invariance, node-to-module sum identities): code-independent, Lean'],
                 assumptions=['products/quotients of two symbolic reals are kept uninterpreted (umul/udiv)',
                              'Louvain level fragments (modularity_louvain_und, community_louvain; modularity_louvain_dir = known finding): ONE hierarchy level is proved for an arbitrary working matrix; ASSUMED at level entry: the working matrix is the (symmetric) aggregate, s equals its total weight, the bookkeeping of community_louvain is consistent at level start; the composition of levels, signed variants: bounded only'],
